@@ -30,7 +30,7 @@ RULE = ("config: random histories (set / reset of the global step interleaved wi
         "prefixes} (exhaustive), plus unknown names; non-trivial: every history with >= 1 override and every name variant "
         "that is not the canonical spelling")
 MUST_OBSERVE = ["histories", "calculators_observed", "steps_traced", "override_step_seen", "global_step_seen",
-                "limits_compared", "gravity_checked", "accuracy_checked", "iteration_cap_checked", "defaults_fresh_interpreter",
+                "limits_compared", "limits_compared_on_inclined_sight_line", "gravity_checked", "accuracy_checked", "iteration_cap_checked", "defaults_fresh_interpreter",
                 "nonpositive_rejected", "dict_mutation_checked", "names_parsed", "aliases_parsed", "channel__parse_unit",
                 "channel_set", "channel_basicConfig", "channel_toml_units", "channel_toml_step", "channel__parse_value",
                 "unknown_names_checked", "slow_steps_traced", "radian_variants", "slot_names_resolved"]
@@ -208,6 +208,8 @@ def check_settings(ctx, case):
 
     from vf.checks.c04 import REASONS, violated   # same oracle as C04, with the limits of *this* calculator
     alt0 = build.shot(spec).atmo.altitude >> Distance.Foot
+    if spec.get("look_deg"):
+        ctx.count("limits_compared_on_inclined_sight_line")
     for name, calc, c in (("A", a, eff), ("A-after-dict-mutation", a2, eff), ("B", b, DEFAULT_CFG)):
         reason, rows = outcome(calc)
         ctx.count("limits_compared")
@@ -578,6 +580,8 @@ def gen_settings(rng):
             cfg[k] = rng.choice(vals)
     s = gen.shot(rng, custom=0.0, cant=False, look=False, wind_n=0, twist=False)
     s["rel_deg"] = rng.choice([0.0, 5.0, 30.0, 85.0])
+    if s["rel_deg"] <= 5.0 and rng.random() < 0.4:
+        s["look_deg"] = rng.choice([-20.0, -10.0, 10.0, 25.0])      # inclined sight line: the limits are about the rows' own height
     if s["rel_deg"] > 80:
         s["mv_fps"] = min(s["mv_fps"], 900.0)     # a lob that slows below the default minimum velocity near its apex
         if "cMaximumDrop" in cfg:
